@@ -229,6 +229,15 @@ func (e *Engine) verifyFunc(fn *ssa.Function, classes map[string]bool) (vc *VC) 
 		f.owns = f.spec.Owns
 		f.assignTargets = env.assignTargets(f.spec, st)
 		vc.pureFrame = f.hasAssigns && len(f.assignTargets) == 0
+		for _, pr := range f.spec.Props {
+			if pd, ok := propDefs[pr]; ok {
+				for _, c := range pd.Classes {
+					if c == "FRAME" {
+						vc.frameOwned = true
+					}
+				}
+			}
+		}
 		for _, h := range f.spec.Holds {
 			st.ghost["lock:"+h] = IntT(2)
 		}
